@@ -95,6 +95,7 @@ func main() {
 	}
 	r.FloorNontrivial(int64(r.Pick(100, 1500)))
 	r.FloorCount("queue_scripts", int64(r.Pick(250, 3500)))
+	r.FloorCount("queue_scripts_with_background_traffic", int64(r.Pick(100, 1500)))
 	r.FloorCount("waiters", int64(r.Pick(1500, 20000)))
 	r.FloorCount("waiters_released_by_notification", int64(r.Pick(300, 4000)))
 	r.FloorCount("waiters_answered_with_context_error", int64(r.Pick(300, 4000)))
